@@ -1,11 +1,47 @@
 (* Model/C05Run.v - case type and checker evaluated on harness-generated cases (C05) *)
-From ReqV Require Export Lib.Bytes Lib.BigEndian Model.QuicVarint.
+From ReqV Require Export Lib.Bytes Lib.BigEndian Model.QuicVarint Model.H2Frame.
 Open Scope N_scope.
+
+Definition mkh (l t f s : N) : fhdr := {| fh_len := l; fh_type := t; fh_flags := f; fh_sid := s |}.
+Definition mkprio (d : N) (e : bool) (w : N) : prio := {| p_dep := d; p_excl := e; p_weight := w |}.
+
+(* one Write* call with its Go arguments *)
+Inductive wcall :=
+| WData (aiw : bool) (sid : N) (es : bool) (data : bytes) (pad : option bytes)
+| WHeaders (aiw : bool) (sid : N) (frag : bytes) (es eh : bool) (padlen : N) (pr : prio)
+| WPriority (aiw : bool) (sid : N) (pr : prio)
+| WRst (aiw : bool) (sid code : N)
+| WSettings (l : list (N * N))
+| WSettingsAck
+| WPing (ack : bool) (data : bytes)
+| WGoAway (last code : N) (debug : bytes)
+| WWindowUpdate (aiw : bool) (sid incr : N)
+| WContinuation (aiw : bool) (sid : N) (eh : bool) (frag : bytes)
+| WPushPromise (aiw : bool) (sid promise : N) (frag : bytes) (eh : bool) (padlen : N)
+| WRaw (ty flags sid : N) (payload : bytes).
+
+Definition run_wcall (c : wcall) : wres :=
+  match c with
+  | WData a s es d p => write_data a s es d p
+  | WHeaders a s f es eh pl pr => write_headers a s f es eh pl pr
+  | WPriority a s pr => write_priority a s pr
+  | WRst a s c => write_rst a s c
+  | WSettings l => write_settings l
+  | WSettingsAck => write_settings_ack
+  | WPing a d => write_ping a d
+  | WGoAway l c d => write_goaway l c d
+  | WWindowUpdate a s i => write_window_update a s i
+  | WContinuation a s eh f => write_continuation a s eh f
+  | WPushPromise a s p f eh pl => write_push_promise a s p f eh pl
+  | WRaw t f s p => write_raw t f s p
+  end.
 
 Inductive c05_case :=
 | VarintEnc (v : N) (obs_len : option N) (obs_enc : option bytes)
 | VarintEncLen (v len : N) (obs : option bytes)
-| VarintDec (input : bytes) (obs_parse : vi_res) (obs_read : option (N * bytes)).
+| VarintDec (input : bytes) (obs_parse : vi_res) (obs_read : option (N * bytes))
+| H2Read (max_read : N) (input : bytes) (obs : list (res frame))
+| H2Write (c : wcall) (obs : wres).
 
 Definition optN_eqb (a b : option N) : bool :=
   match a, b with
@@ -29,9 +65,65 @@ Definition opt_read_eqb (a b : option (N * bytes)) : bool :=
   | _, _ => false
   end.
 
+Definition fhdr_eqb (a b : fhdr) : bool :=
+  (fh_len a =? fh_len b) && (fh_type a =? fh_type b) && (fh_flags a =? fh_flags b) && (fh_sid a =? fh_sid b).
+Definition prio_eqb (a b : prio) : bool :=
+  (p_dep a =? p_dep b) && Bool.eqb (p_excl a) (p_excl b) && (p_weight a =? p_weight b).
+Definition pairN_eqb (a b : N * N) : bool := (fst a =? fst b) && (snd a =? snd b).
+
+Definition frame_eqb (a b : frame) : bool :=
+  match a, b with
+  | FData h d, FData h' d' => fhdr_eqb h h' && bytes_eqb d d'
+  | FHeaders h p f, FHeaders h' p' f' => fhdr_eqb h h' && prio_eqb p p' && bytes_eqb f f'
+  | FPriority h p, FPriority h' p' => fhdr_eqb h h' && prio_eqb p p'
+  | FRst h c, FRst h' c' => fhdr_eqb h h' && (c =? c')
+  | FSettings h l, FSettings h' l' => fhdr_eqb h h' && list_eqb pairN_eqb l l'
+  | FPushPromise h p f, FPushPromise h' p' f' => fhdr_eqb h h' && (p =? p') && bytes_eqb f f'
+  | FPing h d, FPing h' d' => fhdr_eqb h h' && bytes_eqb d d'
+  | FGoAway h l c d, FGoAway h' l' c' d' => fhdr_eqb h h' && (l =? l') && (c =? c') && bytes_eqb d d'
+  | FWindowUpdate h i, FWindowUpdate h' i' => fhdr_eqb h h' && (i =? i')
+  | FContinuation h f, FContinuation h' f' => fhdr_eqb h h' && bytes_eqb f f'
+  | FUnknown h p, FUnknown h' p' => fhdr_eqb h h' && bytes_eqb p p'
+  | _, _ => false
+  end.
+
+Definition h2err_eqb (a b : h2err) : bool :=
+  match a, b with
+  | EConn c, EConn c' => c =? c'
+  | EStream s c, EStream s' c' => (s =? s') && (c =? c')
+  | EUnexpectedEOF, EUnexpectedEOF => true
+  | EEOF, EEOF => true
+  | EFrameTooLarge, EFrameTooLarge => true
+  | _, _ => false
+  end.
+
+Definition res_eqb (a b : res frame) : bool :=
+  match a, b with
+  | Ok f, Ok f' => frame_eqb f f'
+  | Err e, Err e' => h2err_eqb e e'
+  | _, _ => false
+  end.
+
+Definition werr_eqb (a b : werr) : bool :=
+  match a, b with
+  | WStreamID, WStreamID | WDepStreamID, WDepStreamID | WPadLength, WPadLength
+  | WPadBytes, WPadBytes | WWindowIncr, WWindowIncr | WFrameTooLarge, WFrameTooLarge => true
+  | _, _ => false
+  end.
+
+Definition wres_eqb (a b : wres) : bool :=
+  match a, b with
+  | WOk x, WOk y => bytes_eqb x y
+  | WErr e, WErr e' => werr_eqb e e'
+  | _, _ => false
+  end.
+
 Definition c05_check (c : c05_case) : bool :=
   match c with
   | VarintEnc v l e => optN_eqb (vi_len v) l && opt_bytes_eqb (vi_append v) e
   | VarintEncLen v len e => opt_bytes_eqb (vi_append_with_len v len) e
   | VarintDec i p rd => vi_res_eqb (vi_parse i) p && opt_read_eqb (vi_read i) rd
+  | H2Read mx i obs =>
+      list_eqb res_eqb (read_frames (length obs) {| rs_last := 0; rs_max := set_max_read mx |} i) obs
+  | H2Write c obs => wres_eqb (run_wcall c) obs
   end.
